@@ -63,6 +63,7 @@ func (it *interp) execBinOp(d *disjunct, f frameID, x *ssa.BinOp) rep {
 		if it.fits(d, l, lo, hi, hasLo, hasHi) {
 			return rep{kind: kInt, lin: l}
 		}
+		it.wrapSeen = true
 		return rep{kind: kInt, lin: res}
 	}
 	nonneg := func(l *lin.Lin) bool { return it.entails(d, lin.GE(l, lin.Const(0))) }
@@ -399,7 +400,13 @@ func (it *interp) execInstr(s *state, f frameID, fn *ssa.Function, in ssa.Instru
 				})
 			}
 		}
+		it.wrapSeen = false
 		set(x, func(d *disjunct) rep { return it.execBinOp(d, f, x) })
+		if !isWide(x.Type()) && kindOf(x.Type()) == kInt && (x.Op == token.ADD || x.Op == token.SUB || x.Op == token.MUL || x.Op == token.SHL) {
+			it.oblige(fn, x, "WRAP", "", !it.wrapSeen, func() string {
+				return "narrow integer arithmetic may wrap around here (the result is not proven to fit its type)"
+			})
+		}
 	case *ssa.UnOp:
 		switch x.Op {
 		case token.NOT:
